@@ -143,6 +143,16 @@ func cmdCheck(args []string) {
 	for _, k := range spec.Kinds {
 		propKinds[k] = true
 	}
+	// sweepKind: in a sweep (files listed) the obligations of the property's own kinds form a closed set
+	sweepKind := func(kind string) bool {
+		if len(spec.Files) == 0 {
+			return false
+		}
+		if len(propKinds) > 0 {
+			return propKinds[kind]
+		}
+		return safetyKinds[kind]
+	}
 	funcKinds := map[string]map[string]bool{}
 	funcMatch := map[string][]*regexp.Regexp{}
 	var missingFuncs []string
@@ -199,7 +209,7 @@ func cmdCheck(args []string) {
 			return true
 		}
 		// facts that later obligations rely on must be established by the same check
-		if ob.Kind == "inv-entry" || ob.Kind == "inv-preserved" || ob.Kind == "pre" || ob.Kind == "lockinv" {
+		if supportKind(ob.Kind) {
 			return true
 		}
 		if res, ok := funcMatch[ob.Fn]; ok {
@@ -249,8 +259,12 @@ func cmdCheck(args []string) {
 			if ob.Kind == "cover" || claimed[ob.Name] {
 				return true
 			}
-			if len(spec.Files) > 0 && safetyKinds[ob.Kind] {
-				// a sweep also decides panic sites that are new since the claims were taken
+			if sweepKind(ob.Kind) {
+				// a sweep also decides sites that are new since the claims were taken
+				return true
+			}
+			if supportKind(ob.Kind) {
+				// later obligations of the function assume these: they are decided whether claimed or not
 				return true
 			}
 			_, isKnown := known[ob.Name]
@@ -310,7 +324,7 @@ func cmdCheck(args []string) {
 	}
 	if len(spec.Files) > 0 {
 		for name, ob := range byName {
-			if !claimed[name] && safetyKinds[ob.Kind] && ob.Status == "unknown" {
+			if !claimed[name] && sweepKind(ob.Kind) && ob.Status == "unknown" {
 				retry = append(retry, ob)
 			}
 		}
@@ -341,7 +355,7 @@ func cmdCheck(args []string) {
 		}
 		sort.Strings(names)
 		for name, ob := range byName {
-			if (ob.Kind == "inv-entry" || ob.Kind == "inv-preserved" || ob.Kind == "pre" || ob.Kind == "lockinv") && ob.Status != "discharged" {
+			if supportKind(ob.Kind) && ob.Status != "discharged" {
 				fmt.Printf("SUPPORT-UNPROVED %s [%s]: later obligations of this function assume it\n", name, ob.Status)
 			}
 		}
@@ -380,7 +394,7 @@ func cmdCheck(args []string) {
 		ob, ok := byName[name]
 		if !ok {
 			kind := obKindFromName(name)
-			if safetyKinds[kind] || kind == "guarded" || kind == "lock-reentry" || kind == "unlock-not-held" || kind == "pre" || kind == "inv-entry" || kind == "inv-preserved" || kind == "lock-balance" {
+			if safetyKinds[kind] || kind == "guarded" || kind == "unguarded-write" || kind == "loop-frame" || kind == "lock-reentry" || kind == "unlock-not-held" || kind == "pre" || kind == "inv-entry" || kind == "inv-preserved" || kind == "lock-balance" {
 				// the instruction that could fail is gone, or a helper changed shape
 				retired = append(retired, name)
 				continue
@@ -436,10 +450,18 @@ func cmdCheck(args []string) {
 			violations = append(violations, violation{ob: &o, reason: "renamed-" + ob.Status, res: resOf[name]})
 			continue
 		}
-		if len(spec.Files) > 0 && safetyKinds[ob.Kind] && (ob.Status == "refuted" || ob.Status == "unknown") {
-			// a sweep claims every panic site of the listed files: a new site that cannot be shown safe counts
+		if supportKind(ob.Kind) && (ob.Status == "refuted" || ob.Status == "unknown") {
+			// an invariant, precondition or frame side condition that later obligations of the function assume:
+			// unproved, it would make those proofs meaningless
 			o := *ob
-			o.Desc = "(new panic site in a swept file) " + o.Desc
+			o.Desc = "(unproved fact that later obligations assume) " + o.Desc
+			violations = append(violations, violation{ob: &o, reason: "support-" + ob.Status, res: resOf[name]})
+			continue
+		}
+		if sweepKind(ob.Kind) && (ob.Status == "refuted" || ob.Status == "unknown") {
+			// a sweep claims every site of its kinds in the listed files: a new site that cannot be shown safe counts
+			o := *ob
+			o.Desc = "(new site in a swept file) " + o.Desc
 			violations = append(violations, violation{ob: &o, reason: "new-" + ob.Status, res: resOf[name]})
 			continue
 		}
@@ -659,4 +681,13 @@ func runReplayDriver(root, repo, driver string, ob *Obligation, replayPath strin
 	cmd.Dir = root
 	out, err := cmd.CombinedOutput()
 	return err == nil, tail(string(out), 6000)
+}
+
+// supportKind: obligations whose conclusion is assumed by the rest of the function once they have been asserted.
+func supportKind(k string) bool {
+	switch k {
+	case "inv-entry", "inv-preserved", "pre", "lockinv", "loop-frame":
+		return true
+	}
+	return false
 }
